@@ -193,6 +193,29 @@ pub fn run(ctx: &Ctx, rep: &mut Report) {
             let dest_trusted = w.model.trusted.contains(&dest);
             let dclass = if dclass == "trusted" && !dest_trusted { "usual-destination-just-removed" } else { dclass };
             let payer = users[rng.usize(users.len())].clone();
+            // now and then somebody names the service itself as the payer of the gas and signs nothing
+            // (or signs as a stranger): nobody paid, so nothing may be announced
+            if rng.chance(1, 10) {
+                let trusted_now: Vec<Vec<u8>> = w.model.trusted.iter().cloned().collect();
+                if !trusted_now.is_empty() {
+                    let (ta, _) = rng.pick(&canon_ids).clone();
+                    let dest = rng.pick(&trusted_now).clone();
+                    let its = w.its.clone();
+                    let ga = w.gas.addr.clone();
+                    let auth = if rng.chance(1, 2) { Auth::Nobody } else { Auth::AllBy(w.stranger.clone()) };
+                    let o = w.do_deploy_remote_canonical(&ta, &dest, &its, &ga, 1, auth);
+                    rep.count("op:remote-deploy-naming-the-service-as-payer");
+                    rep.eval("remote-deploy-naming-the-service-as-payer", &format!("self-payer|{}", o.ok()), true);
+                    if let Some(l) = &o.leak {
+                        rep.violation("failed-request-left-trace", l.clone());
+                        break;
+                    }
+                    if o.ok() {
+                        rep.violation("remote-deploy-accepted:the-service-named-as-payer", "a remote deployment that nobody paid for and nobody signed was announced".into());
+                        break;
+                    }
+                }
+            }
             // (token address, expected id if registered, caller, salt)
             let variant: &str;
             let mut auth;
